@@ -515,45 +515,23 @@ Definition interp (script : list action) (s : state) : istate :=
                 (mkistate (match group_up s with Some s' => s' | None => s end) Free [] false)
   end.
 
-(* ---- what the model transcribes, statement by statement (compared with
-        RobsdGen.Gen_Kill, which is regenerated from step-exec.c on every run) ---------------- *)
+(* ---- what is pinned as TEXT (compared with RobsdGen.Gen_Kill, regenerated from step-exec.c on every run):
+        the four functions the transition table of Exec/KillTable.v does not cover.  step_exec, step_fork,
+        waiteof, killwaitpg and killwaitpg1 are tied through the generated table instead
+        (Exec/KillTie.v: rstep_is_table); exitstatus is moreover proved equal to C06's clang-translated
+        function (Exec/KillExit.v). ---------------- *)
 From Coq Require Import String.
 Local Open Scope string_scope.
-
-Definition model_calls_step_exec : list string :=
-  [ "return 1"; "step_fork"; "return _"; "waitpid -pid &status 0 == -1"; "if-gotsig";
-    "killwaitpg pid 5000"; "err 1 waitpid"; "exitstatus gotsig"; "return _" ].
 
 Definition model_calls_exitstatus : list string :=
   [ "if-signal SIGALRM"; "return EX_TIMEOUT"; "if-W WIFEXITED"; "return WEXITSTATUS(status)";
     "if-W WIFSIGNALED"; "return 128 + WTERMSIG(status)"; "return 1" ].
-
-Definition model_calls_killwaitpg : list string :=
-  [ "killwaitpg1 SIGTERM"; "return 0"; "killwaitpg1 SIGKILL"; "return 0"; "status= 1"; "return 1" ].
-
-Definition model_calls_killwaitpg1 : list string :=
-  [ "slpms 100"; "kill -pgid signo == -1"; "err 1 kill"; "waitpid -pgid status WNOHANG"; "w== -1";
-    "warn waitpid"; "return 1"; "w== 0"; "usleep"; "countdown"; "if-timoms <="; "return 1"; "continue";
-    "return 0" ].
-
-Definition model_calls_waiteof : list string :=
-  [ "slpms 1"; "read"; "n== -1"; "errno== EAGAIN"; "usleep"; "countdown"; "if-timoms <="; "return 1";
-    "warn read"; "return 1"; "n== 0"; "break"; "return 0" ].
 
 Definition model_calls_siginstall : list string :=
   [ "sigaction NULL &sa"; "err 1 sigaction"; "sa_handler handler"; "norestart"; "sigaction &sa NULL";
     "err 1 sigaction" ].
 
 Definition model_calls_sighandler : list string := [ "gotsig= signo" ].
-
-Definition model_calls_step_fork : list string :=
-  [ "pipe2"; "err 1 pipe2"; "fork"; "err 1 fork"; "pid==0"; "close-pipe 0"; "setsid"; "err 1 setsid";
-    "siginstall SIGHUP SIG_DFL 0"; "siginstall SIGINT SIG_DFL 0"; "siginstall SIGQUIT SIG_DFL 0";
-    "close-pipe 1"; "execvp";
-    "siginstall SIGPIPE SIG_IGN 0"; "siginstall SIGTERM sighandler SIG_NO_RESTART";
-    "close-pipe 1"; "waiteof 1000"; "waitpid pid &status 0 == -1"; "return 1"; "exitstatus 0";
-    "return error ? error : 1"; "close-pipe 0"; "step_timeout"; "if-timeout >";
-    "siginstall SIGALRM sighandler 0"; "alarm"; "return 0" ].
 
 Definition model_calls_step_timeout : list string :=
   [ "mode-is != ROBSD_REGRESS"; "return 0";
